@@ -56,6 +56,18 @@ class World:
             self.tips["co%d" % i] = "m0"
             self.bound["co%d" % i] = True
         m.branch.create_checkout(d + "/light", lightweight=True)
+        # an independent branch (not the master) with three revisions of its
+        # own, for pulls with a stop revision
+        o = m.branch.controldir.sprout(d + "/other").open_workingtree()
+        prev = "m0"
+        for i in (1, 2, 3):
+            self._write("other", "fo", "o%d\n" % i)
+            if i == 1:
+                o.add(["fo"])
+            o.commit("o%d" % i, rev_id=b"o%d" % i, timestamp=bz.T0, timezone=0,
+                     committer=bz.COMMITTER)
+            self.parents["o%d" % i] = [prev]
+            prev = "o%d" % i
         self.double = double
         if double:
             g = m.branch.controldir.sprout(d + "/grand").open_branch()
@@ -245,12 +257,65 @@ def run(case, env):
                         labels.add("local-commit-merged-back")
                         # commit the merge so that the program can go on
                         mid = w.new_id()
-                        w.wt(name).commit("merge local", rev_id=bz.enc(mid),
-                                          timestamp=bz.T0, timezone=0,
-                                          committer=bz.COMMITTER)
-                        w.parents[mid] = ts["parents"]
-                        w.tips[name] = mid
-                        w.tips["master"] = mid
+                        if w.double:
+                            # cannot commit through a doubly bound master:
+                            # drop the pending merge instead
+                            t = w.wt(name)
+                            t.set_parent_ids([bz.enc(mtip)])
+                            t.revert(backups=False)
+                        else:
+                            w.wt(name).commit("merge local",
+                                              rev_id=bz.enc(mid),
+                                              timestamp=bz.T0, timezone=0,
+                                              committer=bz.COMMITTER)
+                            w.parents[mid] = ts["parents"]
+                            w.tips[name] = mid
+                            w.tips["master"] = mid
+            elif op == "pull-other":
+                # pull from a branch that is not the master, up to a stop
+                # revision: a bound branch takes its master along to exactly
+                # that revision
+                stop = "o%d" % (1 + step.get("stop", 0) % 3)
+                old_local, mtip = w.tips[name], w.tips["master"]
+                tips_involved = [old_local] + ([mtip] if w.bound[name] else [])
+                if all(t in w.anc(stop) for t in tips_involved):
+                    want = stop
+                elif all(stop in w.anc(t) for t in tips_involved):
+                    want = "unchanged"
+                else:
+                    want = None
+                try:
+                    w.wt(name).pull(w.branch("other"), stop_revision=bz.enc(stop))
+                    refused = False
+                except errors.DivergedBranches:
+                    refused = True
+                if want is None or refused:
+                    # mixed relation (e.g. master behind, local diverged): the
+                    # master is pulled first and may have moved before the
+                    # local branch refused; not decided by the property.
+                    # Resynchronise the model, but a moved tip must be the
+                    # stop revision, never beyond it.
+                    check(want is None or not refused,
+                          "C23/pull-refused-a-fast-forward", ctx)
+                    got = w.observe()
+                    for n in w.names:
+                        if got[n]["tip"] != w.tips[n]:
+                            check(got[n]["tip"] == stop,
+                                  "C23/pull-with-stop-revision-went-elsewhere",
+                                  [ctx, n, got[n]["tip"], stop])
+                        w.tips[n] = got[n]["tip"]
+                    continue
+                check(not refused, "C23/pull-refused-a-fast-forward", ctx)
+                if want == stop:
+                    w.tips[name] = stop
+                    if w.bound[name]:
+                        w.tips["master"] = stop
+                    labels.add("pull-other-with-stop")
+                got = w.observe()
+                check(got[name]["tip"] == w.tips[name] and
+                      got["master"]["tip"] == w.tips["master"],
+                      "C23/pull-with-stop-revision-left-branches-out-of-step",
+                      [ctx, stop, got[name]["tip"], got["master"]["tip"]])
             elif op == "unbind":
                 b = w.branch(name)
                 if w.bound[name]:
@@ -286,11 +351,18 @@ def cases(draw, max_steps=10):
     n_co = draw(st.sampled_from([1, 2, 2, 3]))
     ops = ["commit-co", "commit-co", "commit-co", "commit-master",
            "commit-master", "commit-light", "commit-local", "update", "update",
-           "pull", "unbind", "bind"]
+           "pull", "unbind", "bind", "pull-other"]
     steps = draw(st.lists(
         st.fixed_dictionaries({"op": st.sampled_from(ops),
-                               "co": st.sampled_from([0, 1, 2])}),
+                               "co": st.sampled_from([0, 1, 2]),
+                               "stop": st.sampled_from([0, 1, 2])}),
         min_size=3, max_size=max_steps))
+    # a pull from the independent branch only fast-forwards while nothing else
+    # was committed: put one first, often
+    if draw(st.sampled_from([True, False])):
+        steps.insert(0, {"op": "pull-other",
+                         "co": draw(st.sampled_from([0, 1, 2])),
+                         "stop": draw(st.sampled_from([0, 1]))})
     return {"checkouts": n_co, "steps": steps,
             "double": draw(st.sampled_from([False] * 9 + [True]))}
 
